@@ -528,6 +528,21 @@ def embedded_stream(chk):
             elif any(constant.evaluate(c) != x for c in consts):
                 chk.fail('embedded', 'the decoded constant does not evaluate to the original string', case)
     chk.stat('embedded-texts', len(pool) * 5)
+    # lex() documents its pattern argument as a compiled pattern OR its text: quote(x) is one STRING token either way
+    from penman import _lexer
+    for x in pool[:120]:
+        q = constant.quote(x)
+        for triple, rx in ((False, _lexer.PENMAN_RE), (True, _lexer.TRIPLE_RE)):
+            chk.count(('pattern-text', triple, q))
+            try:
+                a = [(t.type, t.text, t.lineno, t.offset) for t in _lexer.lex(q, pattern=rx)]
+                b = [(t.type, t.text, t.lineno, t.offset) for t in _lexer.lex(q, pattern=rx.pattern)]
+            except Exception as e:       # noqa
+                chk.fail('embedded', f'lexing quote(x) raises {type(e).__name__}', {'stream': 'pattern-text', 'x': x})
+                continue
+            if a != b:
+                chk.fail('embedded', f'lex(quote(x), pattern=<text of the pattern>) gives {str(b)[:120]}, with the compiled '
+                         f'pattern {str(a)[:120]}', {'stream': 'pattern-text', 'x': x, 'triple_pattern': triple})
 
 
 def replay(obj):
